@@ -1,6 +1,7 @@
 package main
 
 import (
+	"github.com/aml-org/amf-custom-validator/pkg/config"
 	"encoding/json"
 	"fmt"
 	"io"
@@ -17,6 +18,8 @@ type HistCase struct {
 	// other profiles handled by the process between the documents of the history (their verdicts are not looked at):
 	// what one compiled profile answers must not depend on which other profiles the process has seen
 	Interfere []string `json:"interfere,omitempty"`
+	// report configuration per position (nil = the default one)
+	RCs []*caseRC `json:"rcs,omitempty"`
 }
 
 const amlCore = "http://a.ml/vocabularies/core#"
@@ -150,6 +153,26 @@ func genHist(g *G, n int, out io.Writer) {
 		}
 		pool = append(pool, lex(true, "file:///first.raml"), lex(false, ""), lex(true, "file:///second.raml"), lex(false, ""))
 		kinds = append(kinds, "lexical-info", "lexical-noinfo", "lexical-info", "lexical-noinfo")
+		// source information with TWO additional locations that list the same node ids the other lexical documents use
+		{
+			nodes := []map[string]any{
+				{"@id": nodeId(900), "@type": []string{NS + "T"}},
+				{"@id": nodeId(901), "@type": []string{SM + "SourceMap"}, SM + "lexical": []any{map[string]any{"@id": nodeId(902)}}},
+				{"@id": nodeId(902), SM + "element": nodeId(900), SM + "value": "[(7,1)-(8,2)]"},
+				{"@id": nodeId(903), "@type": []string{DOC + "BaseUnitSourceInformation"}, DOC + "rootLocation": "file:///root-of-many.raml",
+					DOC + "additionalLocations": []any{map[string]any{"@id": nodeId(904)}, map[string]any{"@id": nodeId(905)}}},
+				{"@id": nodeId(904), DOC + "location": "file:///lib-a.raml", DOC + "elements": []any{map[string]any{"@id": nodeId(900)}}},
+				{"@id": nodeId(905), DOC + "location": "file:///lib-b.raml", DOC + "elements": []any{map[string]any{"@id": nodeId(901)}}},
+			}
+			b, _ := json.Marshal(nodes)
+			pool = append(pool, string(b), string(b))
+			kinds = append(kinds, "lexical-two-locations", "lexical-two-locations")
+		}
+		if i%6 == 1 {
+			// a profile that reports every T node, and a pool made of the lexical documents only: every report carries locations
+			h.Profile = "profile: hist lexical\nprefixes:\n  ex: " + NS + "\nviolation:\n  - v\nvalidations:\n  v:\n    targetClass: ex.T\n    message: m\n    propertyConstraints:\n      ex.zz:\n        minCount: 1\n"
+			pool, kinds = pool[3:], kinds[3:]
+		}
 		pool = append(pool, "[]", "{\"@id\":\"http://a\",\"@type\":5}", "{ not json", "")
 		kinds = append(kinds, "empty", "jsonld-reject", "undecodable", "empty-text")
 		// a readable first value followed by more text (a second document, a stray bracket, padding): read like the first value alone
@@ -165,6 +188,18 @@ func genHist(g *G, n int, out io.Writer) {
 			j := g.n(len(pool))
 			h.Docs = append(h.Docs, pool[j])
 			h.Kinds = append(h.Kinds, kinds[j])
+		}
+		if i%6 == 3 || i%6 == 1 && g.coin(0.5) {
+			// the caller's report configuration varies from call to call (configurations that agree in some fields)
+			def := config.DefaultReportConfiguration()
+			variants := []*caseRC{nil, {def.ReportSchemaIri, "http://tenant-b.example.org/lexical-2.yaml", true, ""}, {def.ReportSchemaIri, def.LexicalSchemaIri, false, ""},
+				{"http://tenant-b.example.org/report-2.yaml", def.LexicalSchemaIri, true, ""}}
+			for range h.Docs {
+				h.RCs = append(h.RCs, variants[g.n(len(variants))])
+			}
+			if i%6 == 3 {
+				h.Profile = "profile: hist configurations\nprefixes:\n  ex: " + NS + "\nviolation:\n  - v\nvalidations:\n  v:\n    targetClass: ex.T\n    message: m\n    propertyConstraints:\n      ex.zz:\n        minCount: 1\n"
+			}
 		}
 		enc.Encode(h)
 	}
